@@ -7,11 +7,53 @@ ALL = ["C%02d" % i for i in range(1, 20)]
 
 # id -> (technique, level text, level note, design ref)
 CHECKS = {
+    "C01": (
+        "bounded exhaustive operation-history exploration of the real BDD builder against a truth-table reference model (saturation sweep over all 256 functions of 3 variables x all orders x cache kinds; all short histories over 2 variables)",
+        "Every operation of the alphabet is issued on the real RobddBuilder over all argument combinations of the stated finite pools, in every variable order and for cache-everything and lossy caches of several capacities with tiny and default unique tables; each result and, periodically, every earlier result is compared with the truth-table definition. Exhaustive within the bounds, no sampling.",
+        "Trusted: truth-table algebra and the diagram reader of the harness; n <= 3 for all-pairs sweeps (n = 2 for all-histories), pools for ite in quick; address-dependent table layout is whatever the allocator gives (all layouts only in C02a/C16a).",
+        "DESIGN.md §3 C01",
+    ),
     "C02": (
         "explicit-state BFS over the real unique table with explicit hashes vs a set model (to depth bound, de-duplicated on the slot dump); builder-level canonicity map + shape walk over exhaustive operation sweeps",
-        "Every get_or_insert / get_by_hash sequence over small hash alphabets from capacity 2 (through several growths) is executed on the real table and compared with a set model after every call; every BDD produced by the exhaustive builder sweeps is entered in a truth-table->pointer map and shape-walked. Exhaustive within the stated bounds, no sampling.",
+        "Every get_or_insert / get_by_hash sequence over small hash alphabets from capacity 2 (through several growths) is executed on the real table and compared with a set model after every call; every BDD produced by the exhaustive builder sweeps is entered in a truth-table->pointer map and shape-walked; one deterministic growth scenario at the default capacity. Exhaustive within the stated bounds, no sampling.",
         "Trusted: the harness's set model and truth-table walker; hash alphabets {0,1,2,3,7,8,15,16}/{0,1,3,17}/{0,1}; builder-level runs see only the allocator's layouts (all layouts only at table level).",
         "DESIGN.md §3 C02",
+    ),
+    "C06": (
+        "exhaustive input-space enumeration (all small CNFs x all decision orders x both node stores) on the real top-down compiler, truth-table oracle; fresh and long-lived builders",
+        "Every CNF of the bounded family is compiled top-down under every permutation of its variables with both stores; false-iff-unsat, model set, one-decision-per-path and all conditionings of the result and of its negation are compared with brute force.",
+        "Trusted: truth-table oracle; CNFs with <= 3 clauses over <= 3 variables (<= 2 clauses, width <= 3 over 4 in thorough); orders over exactly the CNF's variables (builder precondition).",
+        "DESIGN.md §3 C06",
+    ),
+    "C08": (
+        "exhaustive input-space enumeration: every Boolean function x every order x every smoothing depth on the real builder, path walk + brute-force weighted sum",
+        "All functions of <= 3 (thorough 4) variables, with and without an unused builder variable, under every variable order and every smoothing depth: function preserved, every path tests the smoothed levels exactly once in order, counts under integer weights equal the brute-force sum.",
+        "Trusted: truth tables, path walker, integer weights (exact in f64).",
+        "DESIGN.md §3 C08",
+    ),
+    "C09": (
+        "explicit-state model checking of the real SATSolver: per CNF, BFS to closure over all decide/pop histories (state = watch lists + state stack), brute-force entailment oracle",
+        "For every CNF of the bounded family the complete set of solver states reachable by any decide/pop interleaving with at most n+1 open decisions is visited; on every transition soundness of assignments and of UNSAT, the fixpoint condition, exact undo by pop, the satisfied flag and hash/residual injectivity are checked against brute force over all models.",
+        "Trusted: brute-force entailment over 2^n models; hooks verif_clone/verif_snapshot for frontier copies and the canonical key (the statement itself is observed through the public API only); CNFs <= 3 clauses over 3 variables (+ <= 2 clauses over 4 in thorough).",
+        "DESIGN.md §3 C09",
+    ),
+    "C13": (
+        "exhaustive enumeration of all triples over per-type finite alphabets; finite fields against independent 256-bit reference arithmetic",
+        "Semiring, ring and lattice laws are evaluated on all triples of exactly representable values for every shipped weight type; every residue for tiny primes and boundary residues for all 7 exported primes are compared with integer arithmetic modulo the prime.",
+        "Trusted: the reference limb arithmetic (self-tested); alphabets listed in the evidence; floats only on exactly representable values.",
+        "DESIGN.md §3 C13",
+    ),
+    "C14": (
+        "exhaustive input-space enumeration: all small CNFs x all elimination orders; all vtrees (every shape and labelling) x all node pairs, against definitions recomputed from the input",
+        "Orders produced by the library are checked to be mutually inverse permutations; dtrees against leaves/vars/cutset definitions; derived vtrees against the CNF's variable set; the vtree manager's indices, lca, prime relation, subtree lookup and variable count against the tree shape for every node pair.",
+        "Trusted: the harness's own tree shape computations; CNFs <= 3 clauses over 3 variables (+ slices with 4 clauses / 4 variables in thorough); vtrees <= 4 leaves (5, and 6 with two labellings, in thorough).",
+        "DESIGN.md §3 C14",
+    ),
+    "C15": (
+        "exhaustive input-space enumeration of clause lists against set-theoretic definitions + explicit-state BFS to closure over push/decide/pop histories of the real residual hasher",
+        "Cnf::new/eval/is_sat_partial/condition/wmc and the PartialModel/VarSet/Literal bookkeeping are compared with their definitions on every clause list and every (partial) assignment of the family; for every clause list all hasher states reachable by push/decide/pop are visited and same-residual <=> same-hash is checked over all of them.",
+        "Trusted: truth-table and set oracles; index-wise reading of 'residuals coincide'; clause lists <= 3 clauses over 3 variables (+ 2 over 4 in thorough).",
+        "DESIGN.md §3 C15",
     ),
 }
 
